@@ -19,6 +19,7 @@ import (
 var (
 	repoDir  = envOr("TLVERIF_REPO", "/repo")
 	verifDir = envOr("TLVERIF_HOME", "/verif")
+	outDir   = envOr("TLVERIF_OUT", verifDir) // reports/ and evidence/ are written here
 )
 
 func envOr(k, d string) string {
@@ -203,9 +204,9 @@ func (c *Check) Finish() int {
 			nNew++
 		}
 	}
-	os.MkdirAll(filepath.Join(verifDir, "reports"), 0o755)
-	os.MkdirAll(filepath.Join(verifDir, "evidence"), 0o755)
-	reportPath := filepath.Join(verifDir, "reports", c.ID+".txt")
+	os.MkdirAll(filepath.Join(outDir, "reports"), 0o755)
+	os.MkdirAll(filepath.Join(outDir, "evidence"), 0o755)
+	reportPath := filepath.Join(outDir, "reports", c.ID+".txt")
 	var sb strings.Builder
 	fmt.Fprintf(&sb, "property %s tier=%s repo=%s\n", c.ID, c.Tier, repoDir)
 	fmt.Fprintf(&sb, "obligations=%d discharged=%d violations(new)=%d known=%d\n", c.obligations, c.discharged, nNew, len(c.viols)-nNew)
@@ -307,7 +308,7 @@ func (c *Check) Finish() int {
 		"violations":  nNew,
 	}
 	b, _ := json.MarshalIndent(ev, "", " ")
-	os.WriteFile(filepath.Join(verifDir, "evidence", c.ID+".json"), b, 0o644)
+	os.WriteFile(filepath.Join(outDir, "evidence", c.ID+".json"), b, 0o644)
 	if nNew > 0 {
 		return 1
 	}
